@@ -111,7 +111,8 @@ PROPS = {
               "the implementation output; float: the 8 float types on 24000 (400000 thorough) working-range vectors (|x| <= 30 f64 / 14 f32, plus 0, 1e-300, 1e-30), "
               "degrees 2-30: every comparison in the tanh domain (tolerance 1e-11 f64, 2e-5 f32) against the Float instance of the generic model and against the "
               "box-plus product: phi / tanh / A-Min*-to-argmin exact, A-Min* others = box-plus of all inputs, min*-approx between exact-(d-2)ln2 and exact, sign "
-              "rule, <= smallest other; non-trivial = degree >= 2; distinct = distinct canonical input"),
+              "rule, <= smallest other; plus 6000 (100000) SEQUENCES of 2-5 check-node calls on ONE float arithmetic object with alternating high / low degrees; "
+              "non-trivial = degree >= 2; distinct = distinct canonical input"),
         assumptions=COMMON_ASSUME,
         partial=["IEEE rounding of the float rules is not bounded by any theorem (real-semantics theorems + tanh-domain comparison only)",
                  "table-vs-real clause (|table[t] - 8 ln(1+e^(-t/8))| <= 1/2, and the accumulated tracking bound of the 8-bit rules) is not proved; the table is "
@@ -185,8 +186,8 @@ PROPS = {
         trusted_base=[KERNEL, CORR,
                       "modelled, not verified: VecDeque as List with push at the back; the queue loops take fuel nrows+ncols+1 (proved sufficient); "
                       "usize::MAX as 2(nrows+ncols)+2 (larger than any path length); the branch labels of the repaired local_girth (defect D5)"],
-        rule=("the D5 corpus plus 400 (6000 thorough) graphs up to 12x12 (20x20) from 7 families (forest, unicyclic with pendant paths/trees, dense, disconnected, "
-              "theta with pendant, sparse random, pendant path on a 4-cycle); for EVERY root (all row and column nodes) and a bound drawn from {0..14, even 2..12, "
+        rule=("the D5 corpus plus 400 (6000 thorough) graphs up to 12x12 (20x20) from 10 families (forest, unicyclic with pendant paths/trees, dense, disconnected, "
+              "theta with pendant, sparse random, pendant path on a 4-cycle, root cycle with short cycles on its arms, two clusters joined through the root and one cross edge, two arms each ending in a 4-cycle joined at the far corners; half of all graphs rebuilt with a random insertion order); for EVERY root (all row and column nodes) and a bound drawn from {0..14, even 2..12, "
               "unbounded}: bfs() distance vectors, girth_at_node[_with_max], girth[_with_max] compared exactly with the model and, as property predicate, with an "
               "independent oracle (level-synchronous BFS; shortest cycle through r = min over edges (r,a) of 1 + dist(a,r) without that edge); non-trivial = at "
               "least 2 edges; distinct = distinct canonical input"),
@@ -262,7 +263,7 @@ PROPS = {
                       "NOT modelled / only observed statistically: rand_distr::Normal, the ChaCha/thread RNG, independence and Gaussianity of the noise samples"],
         rule=("chain: 3 (5 thorough) encodable matrices (4x12, 6x18, 12x24, ...) x every fitting puncturing pattern of length 2,3,4,6 with one removed block (tail / middle / "
               "systematic) or none x BPSK / 8PSK x interleaver {none, +-2, +-3, +-4} that fits, at Eb/N0 = 60 dB: Ber::{n, n_cw, k, rate} compared exactly with the "
-              "model and up to 24 recorded LLR vectors per configuration judged: length n_cw, exact zeros exactly at the punctured positions, the signs complete to "
+              "model (plus a bookkeeping sweep over n_cw <= 72, every pattern length <= 12 dividing it and every number of kept blocks) and up to 24 recorded LLR vectors per configuration judged: length n_cw, exact zeros exactly at the punctured positions, the signs complete to "
               "a codeword of H (punctured bits solved by enumeration) and equal the sign pattern of the generic chain model for that codeword; noise: BPSK at 12 / "
               "15 dB with and without puncturing, >= 1.6e5 (1.6e6) noise samples recovered from the LLRs with the MODEL's sigma: mean, variance, lag-1 correlation "
               "within 6 standard errors of 0, sigma^2, 0; non-trivial = a configuration with puncturing or interleaving; distinct = distinct configuration"),
